@@ -439,3 +439,15 @@ func (e *Engine) opSig() string {
 	}
 	return s
 }
+
+// FinalCheck evaluates the quiescent-state oracles (ledger, conservation, usage, reservations) on one snapshot.
+// Used by the concurrent engine on the final state of a run.
+func (e *Engine) FinalCheck(w *world.World) {
+	st := &Step{N: 0, Op: &Op{Kind: "final"}, Pre: w, Post: w}
+	e.lastStep = nil
+	e.checkC01(st)
+	e.checkC03(st)
+	e.checkUsage(w, "C05")
+	e.checkC09(st)
+	e.checkC11(st)
+}
